@@ -21,6 +21,7 @@ pub mod rxo;
 pub mod matched;
 pub mod api;
 pub mod waitset;
+pub mod listeners;
 
 #[derive(Clone, Debug, Serialize, Deserialize, PartialEq)]
 pub struct Violation {
@@ -77,6 +78,7 @@ pub fn all() -> Vec<ScenarioDef> {
     v.extend(matched::defs());
     v.extend(api::defs());
     v.extend(waitset::defs());
+    v.extend(listeners::defs());
     v
 }
 
